@@ -224,7 +224,7 @@ def harness_text(ob, config):
     for p in ob.stub_verified:
         a.append("#[cfg_attr(kani, kani::stub_verified(%s))]" % p)
     pre = ""
-    if any(isinstance(s, str) and s.startswith("arith_uf") for s in ob.stubs):
+    if any(isinstance(s, str) and s.startswith("arith_uf") for s in ob.stubs) and getattr(ob, "ack", "assume") != "ite":
         # all arithmetic uninterpreted: Ackermann CONSTRAINT encoding of the tables (lib/uf.rs)
         pre = "unsafe { crate::uf::ACK_ASSUME = true; }\n    "
     a.append("pub fn %s() {\n    %s%s\n    reach!();\n}" % (ob.name, pre, ob.body))
@@ -378,7 +378,7 @@ def parse_old(out):
     entries are Kani's reachability instrumentation (FAILURE = reachable) and are ignored; a cover
     property is SATISFIED when its line reads FAILURE."""
     res = {}
-    parts = re.split(r"^Checking harness (\S+?)\.\.\.$", out, flags=re.M)
+    parts = re.split(r"Checking harness (\S+?)\.\.\.$", out, flags=re.M)   # (not anchored: CBMC status lines interleave)
     head = parts[0]
     m = re.search(r"^error(\[E\d+\])?:.*(?:\n.*){0,14}", head, re.M)
     if m and "could not compile" in out or (m and len(parts) == 1):
